@@ -30,6 +30,10 @@ type ReaderCase struct {
 	Plan   faultio.Plan `json:"plan"`             // source behaviour (io.Reader backed)
 	Ops    []ROp        `json:"ops"`              //
 	Tenant int          `json:"tenant,omitempty"` // C09 only: 0 none, 1 pass mode, 2 hold mode, 3 alternate
+	// BufSrc > 0: the io.Reader is a *bytes.Buffer that holds the first BufSrc bytes of the stream when the
+	// reader is created; the producer writes the rest into the same Buffer right afterwards (Plan is unused:
+	// the Buffer delivers what it has and io.EOF at the end).
+	BufSrc int `json:"buf_src,omitempty"`
 }
 
 func streamByte(i int) byte { return byte(i*131 + i>>8 + i>>16) }
@@ -82,6 +86,17 @@ func runReaderHistory(c *ReaderCase, cv *cov, checkLive bool, hooks *readerHooks
 		if hooks != nil {
 			hooks.caller = callerBuf
 		}
+	} else if c.BufSrc > 0 {
+		p1 := c.BufSrc
+		if p1 > c.Total {
+			p1 = c.Total
+		}
+		bb := &bytes.Buffer{}
+		bb.Write(src[:p1])
+		r = bufiox.NewDefaultReader(bb)
+		bb.Write(src[p1:]) // the producer goes on writing into its Buffer
+		plan = faultio.Plan{ErrAt: c.Total, ErrKind: 0}
+		plan.Normalize(c.Total)
 	} else {
 		sr = faultio.NewScriptReader(src, plan)
 		plan = sr.Plan
@@ -417,6 +432,10 @@ func genReaderCase(t *rapid.T) ReaderCase {
 		}
 	} else {
 		c.Plan = genPlan(t, c.Total)
+		if rapid.IntRange(0, 7).Draw(t, "bufSrc") == 0 {
+			c.BufSrc = rapid.OneOf(rapid.IntRange(1, 64), rapid.IntRange(1, 64), rapid.IntRange(1, 9000)).Draw(t, "bufSrcFirst")
+			c.Plan = faultio.Plan{ErrAt: -1}
+		}
 	}
 	maxOps := 40
 	if rapid.IntRange(0, 9).Draw(t, "long") == 0 {
@@ -438,7 +457,7 @@ func nextPow2(n int) int {
 }
 
 func TestC04_Random(t *testing.T) {
-	rec := evid.New("C04", "c04_random", "rapid-generated reader histories (1..300 ops of Next/Peek/Skip/ReadBinary/Release, boundary sizes) over position-dependent streams of 0..100000 bytes with generated source plans (chunk sizes, zero reads, error position/kind, with/after data) and bytes-backed readers; non-trivial = a successful read served by >=2 source reads, a request > 4096 bytes, or a Release with unread data")
+	rec := evid.New("C04", "c04_random", "rapid-generated reader histories (1..300 ops of Next/Peek/Skip/ReadBinary/Release, boundary sizes) over position-dependent streams of 0..100000 bytes with generated source plans (chunk sizes, zero reads, error position/kind, with/after data), sources that are a *bytes.Buffer still being written to by its producer, and bytes-backed readers; non-trivial = a successful read served by >=2 source reads, a request > 4096 bytes, or a Release with unread data")
 	defer rec.Flush()
 	runRapid(t, rec, "c04_reader_history", evid.Pick(30000, 200000), genReaderCase, checkReaderCase)
 }
@@ -689,5 +708,60 @@ func TestC04_Trickle(t *testing.T) {
 	}
 	rec.Merge(bt)
 	rec.Sample(ReaderCase{Total: 1505, Plan: faultio.Plan{Chunks: []int{8}, Zeros: []int{1}, ErrAt: -1}, Ops: []ROp{{"next", 0}, {"next", 1500}}})
+	rec.SetExhaustive()
+}
+
+// TestC04_EmptyRuns: runs of up to 99 consecutive empty reads - one fewer than the number after which
+// the reader (like bufio) may declare its source broken - at the start of a request, after partial
+// progress within a request, and before every chunk. The data behind them must still be delivered.
+func TestC04_EmptyRuns(t *testing.T) {
+	rec := evid.New("C04", "c04_empty_runs", "enumeration: run lengths k in {4..99} x position {before the first chunk of the stream, before the second chunk (after partial progress inside one request), before every chunk} x request kind {Next, Peek+Next, ReadBinary, Skip+Next} x chunk size {1, 7, 100} for a 300-byte request behind a 5-byte prefix; the source never returns more than 99 empty reads in a row; distinct by construction")
+	defer rec.Flush()
+	rec.Assume("a source may return up to 99 consecutive (0,nil) reads: bufiox names 100 as the number of consecutive empty reads after which it gives up (maxConsecutiveEmptyReads), as bufio does; longer runs are outside the domain")
+	bt := evid.NewBatch()
+	for k := 4; k <= 99; k++ {
+		for pos := 0; pos < 3; pos++ {
+			for _, chunk := range []int{1, 7, 100} {
+				var zeros []int
+				switch pos {
+				case 0:
+					zeros = append([]int{k}, make([]int, 400)...)
+				case 1:
+					zeros = append([]int{0, k}, make([]int, 400)...)
+				default:
+					zeros = []int{k}
+				}
+				if pos == 2 && chunk == 1 && k > 20 && k%10 != 9 {
+					continue // 300 x k empty reads: keep a subset
+				}
+				progs := [][]ROp{
+					{{"next", 5}, {"next", 300}},
+					{{"next", 5}, {"peek", 300}, {"next", 300}},
+					{{"next", 5}, {"readbin", 300}},
+					{{"next", 5}, {"skip", 300}, {"next", 3}},
+				}
+				for pi, ops := range progs {
+					c := ReaderCase{Total: 5 + 300 + 3, Plan: faultio.Plan{Chunks: []int{5, chunk}, Zeros: zeros, LongZeros: true, ErrAt: -1, WithData: (pi+k)%2 == 0}, Ops: ops}
+					if pos == 1 {
+						// first request chunk makes progress, then the run of empty reads
+						c.Plan.Chunks = []int{5, 1, chunk}
+						c.Plan.Zeros = append([]int{0, 0, k}, make([]int, 400)...)
+					}
+					var cv cov
+					v := checkReaderCase(c, &cv)
+					bt.Evals++
+					bt.Distinct++
+					bt.Nontrivial++
+					if v != nil {
+						failEnum(t, rec, "c04_reader_history", c, v)
+						rec.Merge(bt)
+						return
+					}
+				}
+			}
+		}
+	}
+	rec.Merge(bt)
+	rec.Sample(ReaderCase{Total: 308, Plan: faultio.Plan{Chunks: []int{5, 1, 7}, Zeros: []int{0, 0, 99, 0}, LongZeros: true, ErrAt: -1}, Ops: []ROp{{"next", 5}, {"next", 300}}})
 	rec.SetExhaustive()
 }
